@@ -423,7 +423,25 @@ func (r *collection) Remove(t reflect.Type) {
 	defer r.mu.Unlock()
 
 	typeKey := TypeKey{Type: t}
+	r.removeDescriptor(typeKey)
+}
+
+// removeDescriptor removes the registration of a (type, key) identity from the
+// service map and from the list of descriptors a later Build uses.
+func (r *collection) removeDescriptor(typeKey TypeKey) {
+	descriptor, ok := r.services[typeKey]
+	if !ok {
+		return
+	}
+
 	delete(r.services, typeKey)
+
+	for i, d := range r.allDescriptors {
+		if d == descriptor {
+			r.allDescriptors = append(r.allDescriptors[:i:i], r.allDescriptors[i+1:]...)
+			break
+		}
+	}
 }
 
 // RemoveKeyed removes a specific keyed service
@@ -436,7 +454,7 @@ func (r *collection) RemoveKeyed(t reflect.Type, key any) {
 	defer r.mu.Unlock()
 
 	typeKey := TypeKey{Type: t, Key: key}
-	delete(r.services, typeKey)
+	r.removeDescriptor(typeKey)
 }
 
 // ToSlice returns a copy of all registered service descriptors
